@@ -162,7 +162,7 @@ def r18_3(ctx):
         r.saw(pb["path"])
         pairs = set()
         for n in walk(pb["body"]):
-            if n.get("k") in ("LetExpr", "Let") and n["pat"].get("k") in ("POr", "PTuple"):
+            if n.get("k") in ("LetExpr", "Let", "Arm") and (n.get("pat") or {}).get("k") in ("POr", "PTuple"):
                 alts = n["pat"]["pats"] if n["pat"].get("k") == "POr" else [n["pat"]]
                 for alt in alts:
                     if alt.get("k") == "PTuple" and len(alt["pats"]) == 2:
